@@ -317,6 +317,10 @@ inductive Op where
   | purge (funds pre : Bool)
   /-- clock steps, whitelist-side edits, anything that does not execute on the minter -/
   | env
+  /-- governance (factory sudo `UpdateParams` / factory `migrate` with params) replaces the factory's
+  `max_per_address_limit`, which `execute_update_per_address_limit` reads LIVE; nothing on the minter itself moves
+  (added LAST, round 3 follow-up) -/
+  | govern (maxPer : Nat)
 deriving DecidableEq, Repr
 
 def step (s : State) (op : Op) : Except Err (State × Event) :=
@@ -369,6 +373,7 @@ def step (s : State) (op : Op) : Except Err (State × Event) :=
     else if pre = false then .error .other
     else .ok ({ s with pub := zero, wlc := if s.kind.flavor = .flex then zero else s.wlc }, .purge)
   | .env => .ok (s, .other)
+  | .govern maxPer => .ok ({ s with maxPerAddr := maxPer }, .other)
 
 /-- transactional semantics: a failed operation leaves the state unchanged and produces no event -/
 def stepAcc (p : State × List Event) (op : Op) : State × List Event :=
